@@ -4,7 +4,14 @@
 // the attribute iterables themselves) lives in an exactly-sized heap block that is FREED as soon as the API call returns,
 // so any pointer the SDK kept is a heap-use-after-free under ASan at export time.
 //
+// `par … seq` sections run their (thread-tagged) mutators on real threads CONCURRENTLY (released together); inside a section
+// every attribute key / event name starts with the digit of its thread, so the outcome is the same for every interleaving
+// up to the relative order of events of different threads — cases with a section print events grouped by that first
+// byte (stable), on both sides.
+//
 // Line syntax and output: see lean/Driver/C04.lean.
+#include <algorithm>
+#include <atomic>
 #include <thread>
 #include "attr_util.h"
 #include "park.h"
@@ -31,6 +38,7 @@ using vh::Exact;
 // which durations are not clock readings: (explicit end) - (explicit start) for some End of the case
 struct Canon
 {
+  bool group_events   = false;  // the case has a concurrent section: print events grouped by first name byte (stable)
   bool start_explicit = false;
   int64_t start       = 0;
   std::vector<int64_t> ends;
@@ -59,11 +67,21 @@ static std::string show_span(const trace_sdk::SpanData &sd, const Canon &canon)
   s += " attrs=" + vh::show_map(sd.GetAttributes());
   s += " events=[";
   bool first = true;
+  std::vector<std::pair<int, std::string>> evs;
   for (auto &e : sd.GetEvents())
+  {
+    std::string nm = e.GetName();
+    evs.emplace_back(nm.empty() ? -1 : static_cast<unsigned char>(nm[0]),
+                     vh::to_hex(nm) + "@" + show_sys(e.GetTimestamp()) + vh::show_map(e.GetAttributes()));
+  }
+  if (canon.group_events)
+    std::stable_sort(evs.begin(), evs.end(),
+                     [](const std::pair<int, std::string> &a, const std::pair<int, std::string> &b) { return a.first < b.first; });
+  for (auto &e : evs)
   {
     if (!first) s += ";";
     first = false;
-    s += vh::to_hex(e.GetName()) + "@" + show_sys(e.GetTimestamp()) + vh::show_map(e.GetAttributes());
+    s += e.second;
   }
   s += "] links=[";
   first = true;
@@ -207,6 +225,7 @@ static bool parse_op(std::vector<std::string> t, Op &op)
   if (op.kind == "name" && t.size() == 2) return vh::from_hex(t[1], op.s1);
   if (op.kind == "end" && t.size() == 2) return vh::parse_i(64, t[1], op.n);
   if ((op.kind == "flush" || op.kind == "isrec") && t.size() == 1) return true;
+  if ((op.kind == "par" || op.kind == "seq") && t.size() == 1 && op.thread < 0) return true;
   return false;
 }
 
@@ -260,6 +279,24 @@ static std::string handle(const std::vector<std::string> &toks)
     ops.push_back(std::move(op));
   }
   Canon canon;
+  {
+    // concurrent sections: only thread-tagged attr / event ops whose key / name starts with the thread's digit
+    bool in_par = false;
+    for (auto &op : ops)
+    {
+      if (op.kind == "par" || op.kind == "seq")
+      {
+        if ((op.kind == "par") == in_par) return "bad-op";
+        in_par             = op.kind == "par";
+        canon.group_events = true;
+      }
+      else if (in_par)
+      {
+        bool mut = op.kind == "attr" || op.kind == "ev" || op.kind == "evt" || op.kind == "eva" || op.kind == "evta";
+        if (!mut || op.thread < 0 || op.s1.empty() || op.s1[0] != static_cast<char>('0' + op.thread)) return "bad-op";
+      }
+    }
+  }
   canon.start_explicit = steady != 0;
   canon.start          = steady;
   for (auto &op : ops)
@@ -319,48 +356,72 @@ static std::string handle(const std::vector<std::string> &toks)
     if (has_batch) vh::wait_parked();
     provider->ForceFlush();
   };
-  for (auto &op : ops)
+  auto run = [&](Op &op) {
+    std::unique_ptr<Exact> s1(new Exact(op.s1));
+    nostd::string_view sv(s1->data(), s1->size());
+    if (op.kind == "attr")
+    {
+      std::unique_ptr<vh::Val> v(new vh::Val);
+      v->parse(op.valtok);
+      span->SetAttribute(sv, v->get());
+    }
+    else if (op.kind == "ev") span->AddEvent(sv);
+    else if (op.kind == "evt") span->AddEvent(sv, common::SystemTimestamp(std::chrono::nanoseconds(op.n)));
+    else if (op.kind == "eva" || op.kind == "evta")
+    {
+      std::unique_ptr<vh::Attrs> a(new vh::Attrs);
+      a->parse(op.attrtok);
+      if (op.kind == "eva") span->AddEvent(sv, static_cast<const common::KeyValueIterable &>(*a));
+      else span->AddEvent(sv, common::SystemTimestamp(std::chrono::nanoseconds(op.n)),
+                          static_cast<const common::KeyValueIterable &>(*a));
+    }
+    else if (op.kind == "status") span->SetStatus(static_cast<trace_api::StatusCode>(op.n), sv);
+    else if (op.kind == "name") span->UpdateName(sv);
+    else if (op.kind == "end")
+    {
+      trace_api::EndSpanOptions eo;
+      eo.end_steady_time = common::SteadyTimestamp(std::chrono::nanoseconds(op.n));
+      span->End(eo);
+    }
+    else if (op.kind == "flush") flush();
+    else if (op.kind == "isrec") rec.push_back(span->IsRecording() ? "1" : "0");
+    // s1 and every value block die here, right after the call
+  };
+  for (size_t i = 0; i < ops.size(); i++)
   {
-    auto run = [&]() {
-      std::unique_ptr<Exact> s1(new Exact(op.s1));
-      nostd::string_view sv(s1->data(), s1->size());
-      if (op.kind == "attr")
+    Op &op = ops[i];
+    if (op.kind == "seq") continue;
+    if (op.kind == "par")
+    {
+      // the section's ops, per thread in line order; all threads are released together
+      std::vector<std::vector<Op *>> per(4);
+      size_t j = i + 1;
+      for (; j < ops.size() && ops[j].kind != "seq"; j++) per[ops[j].thread].push_back(&ops[j]);
+      std::atomic<bool> go{false};
+      std::vector<std::thread> ths;
+      for (auto &mine : per)
       {
-        std::unique_ptr<vh::Val> v(new vh::Val);
-        v->parse(op.valtok);
-        span->SetAttribute(sv, v->get());
+        if (mine.empty()) continue;
+        ths.emplace_back([&run, &go, &mine]() {
+          vh::register_own_thread();
+          while (!go.load(std::memory_order_acquire)) {}
+          for (Op *o : mine) run(*o);
+        });
       }
-      else if (op.kind == "ev") span->AddEvent(sv);
-      else if (op.kind == "evt") span->AddEvent(sv, common::SystemTimestamp(std::chrono::nanoseconds(op.n)));
-      else if (op.kind == "eva" || op.kind == "evta")
-      {
-        std::unique_ptr<vh::Attrs> a(new vh::Attrs);
-        a->parse(op.attrtok);
-        if (op.kind == "eva") span->AddEvent(sv, static_cast<const common::KeyValueIterable &>(*a));
-        else span->AddEvent(sv, common::SystemTimestamp(std::chrono::nanoseconds(op.n)),
-                            static_cast<const common::KeyValueIterable &>(*a));
-      }
-      else if (op.kind == "status") span->SetStatus(static_cast<trace_api::StatusCode>(op.n), sv);
-      else if (op.kind == "name") span->UpdateName(sv);
-      else if (op.kind == "end")
-      {
-        trace_api::EndSpanOptions eo;
-        eo.end_steady_time = common::SteadyTimestamp(std::chrono::nanoseconds(op.n));
-        span->End(eo);
-      }
-      else if (op.kind == "flush") flush();
-      else if (op.kind == "isrec") rec.push_back(span->IsRecording() ? "1" : "0");
-      // s1 and every value block die here, right after the call
-    };
+      go.store(true, std::memory_order_release);
+      for (auto &t : ths) t.join();
+      i = j - 1;  // continue at the `seq` (or the end)
+      continue;
+    }
     if (op.thread >= 0)
     {
       std::thread t([&]() {
         vh::register_own_thread();
-        run();
+        run(op);
       });
       t.join();
     }
-    else run();
+    else run(op);
   }
   span = nostd::shared_ptr<trace_api::Span>(nullptr);  // last reference: ~Span -> End()
   flush();
